@@ -176,16 +176,15 @@ def r2(ctx, bh):
   ssz = calcsize_const(struct_fmt_of(prog, kcls, 'MSG_STRUCT'))
   # message set length
   msl = None
-  for st in walk_no_nested(f.node):
-    if isinstance(st, ast.Assign) and isinstance(st.value, ast.Call) and isinstance(st.value.func, ast.Name) and st.value.func.id == 'sum':
-      comp = st.value.args[0]
-      if isinstance(comp, (ast.ListComp, ast.GeneratorExp)):
-        msl = (st, comp)
+  for c_ in walk_no_nested(f.node):
+    if isinstance(c_, ast.Call) and isinstance(c_.func, ast.Name) and c_.func.id == 'sum' and c_.args and isinstance(c_.args[0], (ast.ListComp, ast.GeneratorExp)):
+      holder = [st for st in walk_no_nested(f.node) if isinstance(st, ast.Assign) and st.value is c_]
+      msl = ((holder[0] if holder else None, c_), c_.args[0])
   loops = [n for n in walk_no_nested(f.node) if isinstance(n, ast.For)]
   if msl is None or len(loops) != 1:
     ctx.ob('C15.R2', f, 'message set length', False, 'no sum(... for p in payloads) message-set length / single message loop', why)
     return
-  st, comp = msl
+  (st, sumcall), comp = msl
   var = U(comp.generators[0].target)
   try:
     lf = fold_consts(prog, f, linform(comp.elt))
@@ -195,8 +194,8 @@ def r2(ctx, bh):
   ctx.ob('C15.R2', f, 'message set length', ok,
          'per-message contribution %s, expected %d + len(payload) over the payloads written' % (lf, hsz + ssz), why)
   # the computed length is what gets written before the loop
-  tname = st.targets[0].id if isinstance(st.targets[0], ast.Name) else None
-  wr = [c for c in walk_no_nested(f.node) if isinstance(c, ast.Call) and call_attr(c) == 'WriteInt32' and c.args and U(c.args[0]) == tname
+  tname = st.targets[0].id if st is not None and isinstance(st.targets[0], ast.Name) else None
+  wr = [c for c in walk_no_nested(f.node) if isinstance(c, ast.Call) and call_attr(c) == 'WriteInt32' and c.args and (c.args[0] is sumcall or (tname and U(c.args[0]) == tname))
         and c.lineno < loops[0].lineno]
   ctx.ob('C15.R2', f, 'message set length is written before the messages', bool(wr), 'msg_set_len is not written as int32 before the message loop', why)
   # per message size
